@@ -10,6 +10,7 @@ from engine import pat
 from engine.util import own_nodes, calls_with_nodes, where, with_exprs
 
 RULES = {
+    "R-03.10": "0 is a message id like any other: optional numbers of the renderer and message constructors (id, flags, sizes) are tested for presence by identity with None, never by truth value (DoH and DoQ send id 0; a renderer that re-rolls id 0 makes parse(render(m)) != m)",
     "R-03.9": "EDNS options and records keep every field through parse: a value read from the wire is never dropped on the way to the constructor (C02 R-02.7 adopted)",
     "R-03.8": "rendering with the default limit never fails for a message that was parsed from the wire: the default derives from request_payload, else 65535 (C08 R-08.6 adopted)",
     "R-03.7": "the offsets entered into the compression table are the positions where the suffix starts and fit 14 bits (C01 R-01.4 adopted)",
@@ -213,6 +214,8 @@ def run(model, rep, tier):
     rep.share(model, "C01", {"R-01.3", "R-01.4"}, "R-03.7", "every compressed name in a rendered message is a pointer produced by Name.to_wire from the table offsets")
     rep.share(model, "C08", {"R-08.6"}, "R-03.8", "re-rendering a parsed message must not hit a limit the original did not have: the default limit comes from request_payload (0 on a parsed message), not from the message's own OPT")
     rep.share(model, "C02", {"R-02.7"}, "R-03.9", "the OPT record's options and every rdata of a message are decoded by the per-type from_wire_parser methods")
+    from rules.common import presence_by_identity
+    presence_by_identity(model, rep, "R-03.10", ["dns.renderer", "dns.message"], {"id"}, "an optional number of the renderer/message API", "id 0, used by DoH/DoQ, is replaced by a random id", 2, "dns.renderer+dns.message")
     rep.meta["explanation"] = (
         "Layout agreement of the hand-written writer/reader pairs at the message layer (struct formats folded and compared field by field), statement-position rule for the section counts, "
         "provenance of the compression table argument at every to_wire call that receives the renderer's buffer, and who-may-write on the section index. "
